@@ -3,6 +3,7 @@
 //   E <ENTITY> <idx>    select entity and attribute index for the following commands
 //   R <hex> [strict]    fresh instance; STEPattribute::STEPread on the bytes; answer:
 //                       "sev <n> null <0|1> pos <n> next <hex|-> val <kind> <hex>"  then (if not null) "out <hex>" = STEPwrite text
+//   R2 <hex1> <hex2>    read <hex1>, then <hex2> into the SAME attribute object; answers like R for the second read
 //   B <hex>...          batch: several hex inputs on one line, one answer line each (no "out")
 //   WI <long>           set INTEGER value directly, STEPwrite  -> "out <hex>"
 //   WR <hexfloat>       set REAL/NUMBER value directly, STEPwrite
@@ -77,7 +78,7 @@ static void report_value( STEPattribute * a ) {
     fprintf( g_out, " val %s %s", kind, hexenc( v ).c_str() );
 }
 
-static void do_read( const std::string & bytes, bool strict, bool withOut ) {
+static void do_read( const std::string & bytes, bool strict, bool withOut, const std::string * first = 0 ) {
     SDAI_Application_instance * se = fresh();
     if( !se ) {
         fputs( "ERR noentity\n", g_out );
@@ -88,6 +89,11 @@ static void do_read( const std::string & bytes, bool strict, bool withOut ) {
         return;
     }
     STEPattribute * a = &se->attributes[curIdx];
+    if( first ) {
+        // the attribute object has been read into before (R2): what it then holds must not show in the result of the next read
+        std::istringstream in1( *first );
+        a->STEPread( in1, im, 0, 0, strict );
+    }
     std::istringstream in( bytes );
     Severity s = a->STEPread( in, im, 0, 0, strict );
     long pos = -1;
@@ -143,6 +149,11 @@ int main( int argc, char ** argv ) {
             std::string h, st;
             ls >> h >> st;
             do_read( hexdec( h ), st == "strict", true );
+        } else if( cmd == "R2" ) {
+            std::string h1, h2;
+            ls >> h1 >> h2;
+            std::string f = hexdec( h1 );
+            do_read( hexdec( h2 ), false, true, &f );
         } else if( cmd == "B" ) {
             std::string h;
             int k = 0;
